@@ -2,8 +2,8 @@ SPECIFICATION TSpec
 CONSTANTS
   Threads = {1, 2}
   Dev = {"gateAnyOrder"}
-  LenientGenDrop = FALSE
-  LenientOrder = FALSE
+  LenientGenDrop = TRUE
+  LenientOrder = TRUE
 CONSTRAINT HighWater
 POSTCONDITION Post
 CHECK_DEADLOCK FALSE
